@@ -9,6 +9,8 @@ mod c03_c04_c06;
 mod c15;
 mod chainsys;
 mod c07_c08_c18;
+mod nodesys;
+mod c05;
 
 use common::Tier;
 
@@ -34,6 +36,7 @@ fn main() {
         "C04" => c03_c04_c06::run_c04(tier),
         "C06" => c03_c04_c06::run_c06(tier),
         "C15" => c15::run(tier),
+        "C05" => c05::run(tier),
         "C07" => c07_c08_c18::run_c07(tier),
         "C08" => c07_c08_c18::run_c08(tier),
         "C18" => c07_c08_c18::run_c18(tier),
